@@ -14,11 +14,13 @@ ENTRY = dict(
          "each offered implemented legacy suite alone at each advertised version <= 1.2 (families AEAD / CBC / RC4); each protocol of the wire "
          "ALPN list alone and none, under client Configs with NextProtos unset / preset to a disjoint list / preset to an overlapping list / a "
          "*Config shared with an earlier UConn of a parrot whose ALPN list differs; ECDSA / RSA / Ed25519 leaf alone when signature_algorithms "
-         "offers a usable scheme; each advertised certificate-compression algorithm; *_PSK parrots: resumption attempt answered by a "
+         "offers a usable scheme; each advertised certificate-compression algorithm; a server requesting a client certificate (optional client "
+         "authentication, the client answers with an empty Certificate) at each advertised version, together with each certificate-compression "
+         "algorithm, and after a HelloRetryRequest (CRunQ); *_PSK parrots: resumption attempt answered by a "
          "HelloRetryRequest. After every completed handshake the client Writes 1, 2, 17, 16384 and 20000 bytes (each (n, err) recorded, CWrite "
-         "per distinct (version, suite family, size)), the server echoes all of it. Quick: always every version, every share selection, per "
-         "TLS 1.3 suite one HRR group, one suite per (version, family), one ALPN pick per Config variant, the excluded classes; the rest 1 in 6 "
-         "(parrots, custom) / 1 in 14 (randomized, fingerprinted), rotating with the seed; thorough: full product. A configuration the server "
+         "per distinct (version, suite family, size)), the server echoes all of it. Quick: always every version (derived classes: 1.2 and 1.3), client authentication at 1.3, one compression algorithm alone and with client authentication, every share selection, per "
+         "TLS 1.3 suite one HRR group, one suite per (version, family), one ALPN pick per Config variant, the excluded classes; the rest 1 in 9 "
+         "(parrots, custom) / 1 in 24 (randomized, fingerprinted), rotating with the seed; thorough: full product. A configuration the server "
          "itself rejects is counted, not a case. Distinct by (kind, class, choice); non-trivial unless the plain 1.3 / first-share run.",
     trusted_base=["verif_server.go scripted server (library's own server sub-steps; honest except for the HelloRetryRequest group / TLS 1.3 suite / "
                   "certificate compression it is told to select from the offered sets) and verif_c12.go view accessors",
